@@ -292,7 +292,7 @@ SetLeaf(o, p, v) ==
 \* error class when the parent of path p cannot be reached in o, "" if reachable
 ParentErr(o, p) ==
     IF p # "n.x" THEN ""
-    ELSE IF o["n"] = "-" THEN "pathNotFound"
+    ELSE IF o["n"] \in {"-", "null"} THEN "pathNotFound"    \* an explicit JSON null counts as absent
     ELSE IF o["n"] # "{}" THEN "pathMismatch"
     ELSE ""
 
@@ -308,7 +308,7 @@ SubdocWriteOut(a, d, n, insert) ==
     ELSE IF d.body.k # "obj" THEN Unch(d, {"other", "pathMismatch"} \cup RefCas)
     ELSE IF a.cas # 0 /\ a.cas # d.cas THEN Unch(d, RefCas)
     ELSE IF ParentErr(d.body.o, p) # "" THEN Unch(d, {ParentErr(d.body.o, p)})
-    ELSE IF insert /\ d.body.o[p] # "-" THEN Unch(d, {"pathExists"})
+    ELSE IF insert /\ d.body.o[p] \notin {"-", "null"} THEN Unch(d, {"pathExists"})
     ELSE IF insert /\ a.val = "" THEN Wild(d)
     ELSE {[Mut(Live(ObjBody(SetLeaf(d.body.o, p, a.val)), TRUE, n, e, d.xa, d.rev + 1))
               EXCEPT !.rcas = IF insert THEN "any" ELSE "post"] : e \in {"0", d.exp}}
@@ -323,7 +323,7 @@ GetSubDocRawOut(a, d) ==
     ELSE IF ~HasBody(d) THEN Unch(d, {"missing"})
     ELSE IF d.body.k # "obj" THEN Unch(d, {"other", "pathMismatch"})
     ELSE IF ParentErr(d.body.o, p) # "" THEN Unch(d, {ParentErr(d.body.o, p)})
-    ELSE IF d.body.o[p] = "-" THEN Unch(d, {"pathNotFound"})
+    ELSE IF d.body.o[p] \in {"-", "null"} THEN Unch(d, {"pathNotFound"})
     ELSE {[Out(TRUE, {"ok"}, d, FALSE) EXCEPT !.rval = SubVal(d.body.o, p), !.rcas = "pre"]}
 
 ---------------------------------------------------------------------------
